@@ -38,6 +38,9 @@ CHECKS = {
  "C10": ("fault_enumeration", "runtime fault enumeration: directory snapshot at every crash:* hook point of flush / compaction / deletion plus every byte prefix of every in-flight file, each distinct image reopened with fresh templates and checked against the durable-set model, per-segment all-or-nothing and id-reuse checks",
          "Enumerated ~110 boundaries and ~9000 distinct crash images per quick run (8 histories with 0-3 completed flushes, interrupted flush or compaction); byte prefixes exhaustive (all files < 4 KiB).",
          "Process-death semantics (page cache survives); files are written sequentially so intermediate states are prefixes; power loss / fsync is outside the property.", "DESIGN.md §4 C10"),
+ "C11": ("exploration", "Go race detector over shared-instance stress workloads of all 9 kinds + recorded client-boundary histories checked by an interval form of the visibility sentence and by porcupine (per-id present/absent registers), post-quiescence state check, auto-id uniqueness, hook-driven targeted store schedules, watchdog with goroutine-dump deadlock classification",
+         "Held on 90/1350 concurrent histories (2-16 goroutines, few keys, ~400 ops each) + 8/100 store race-only histories with compaction/eviction/Close + 35/175 targeted schedules + add-vs-rotation+flush and Close-vs-everything schedules, all under -race with 0 reports; overlapping operation pairs per kind are listed in the evidence.",
+         "Absence of a race report covers only operation pairs that overlapped; interleavings finer than the hook points are whatever the scheduler produced; watchdog firing without a provable wait cycle is inconclusive.", "DESIGN.md §4 C11"),
  "C12": ("exploration", "runtime monitor: exact k-NN comparison inside the small-graph regime, non-emptiness after every op, BFS reachability invariant on the graph read through a verif accessor at quiescent points, adversarial removal targets chosen on the graph",
          "Held (apart from listed known findings) on 400/8000 exact-regime histories and 120/1500 graphs of up to 300/3000 vertices; each unreachable vertex is classified on the graph so that only the recorded shapes are suppressed.",
          "Reachability asserted only in states without pending soft deletes; the k=n, ef>=n corroboration is an observation, not a verdict (directed edges, upper-layer descent).", "DESIGN.md §4 C12"),
@@ -50,6 +53,9 @@ CHECKS = {
  "C15": ("exploration", "runtime monitor: measured recall@10 / top-1-in-10 / first-vs-last-tenth recall against FlatIndex on seed-derived Gaussian data sets, compared with the property's own floors",
          "Held on 2/8 data sets (3000 x N(0,1)^16, 100 queries) x 4 approximate kinds x 3 metrics, built through the public API in generation and shuffled order; measured values are written to the evidence.",
          "Statistical clause decided against the property's floors, which sit far below the measured values.", "DESIGN.md §4 C15"),
+ "C17": ("exploration", "runtime monitor: free|owned model over generated Open/Close/failed-Open/closed-handle sequences with full directory diffs (LOCK bytes, segment bytes), goroutine races for Open and against Close, a second OS process (cmd/storehelper) as competing owner, RLIMIT_NOFILE fault injection for 'listing fails after the lock was taken'",
+         "Held on 200/3000 sequences (~200 refused opens, ~120 opens failing after the lock, ~200 stale second Closes per quick run), 40/600 race rounds and 4/40 two-process rounds.",
+         "Unlistable directory emulated by EMFILE on the ReadDir after LOCK creation (root cannot be denied by chmod); 60 s watchdog per racing operation.", "DESIGN.md §4 C17"),
  "C18": ("exploration", "runtime monitor: metric-law assertions on generated vector tuples vs float64 recomputation",
          "Every law of C18 asserted on 20k (quick) / 1.5M (thorough) generated pairs/triples across dim 1..512 and magnitudes 1e-6..1e6, incl. equal/opposite/orthogonal/nearly-parallel/scaled relations; held-on-what-was-generated, not a proof.",
          "Oracle = float64 recomputation from the same float32 inputs; tolerances scaled to float32 accumulation error (max observed error is reported in the evidence).", "DESIGN.md §4 C18"),
